@@ -86,6 +86,45 @@ func (d Distinct) Sorted() []string {
 
 // RunDriver pipes the operation lines to `rigodriver <component>` and returns its output lines.
 func RunDriver(driver, component string, lines []string) ([]string, error) {
+	// the rlp component is stateless (one independent case per line): large inputs are cut into chunks that are
+	// piped to separate driver processes, four at a time (one process for 900k cases needed 13 GB)
+	const chunk = 20000
+	if component == "rlp" && len(lines) > chunk {
+		n := (len(lines) + chunk - 1) / chunk
+		outs := make([][]string, n)
+		errs := make([]error, n)
+		sem := make(chan struct{}, 4)
+		done := make(chan int, n)
+		for i := 0; i < n; i++ {
+			go func(i int) {
+				sem <- struct{}{}
+				defer func() { <-sem; done <- i }()
+				hi := (i + 1) * chunk
+				if hi > len(lines) {
+					hi = len(lines)
+				}
+				outs[i], errs[i] = runDriverOnce(driver, component, lines[i*chunk:hi])
+				if errs[i] == nil && len(outs[i]) != hi-i*chunk {
+					errs[i] = fmt.Errorf("rigodriver %s: chunk %d produced %d lines for %d inputs", component, i, len(outs[i]), hi-i*chunk)
+				}
+			}(i)
+		}
+		for i := 0; i < n; i++ {
+			<-done
+		}
+		var all []string
+		for i := 0; i < n; i++ {
+			if errs[i] != nil {
+				return nil, errs[i]
+			}
+			all = append(all, outs[i]...)
+		}
+		return all, nil
+	}
+	return runDriverOnce(driver, component, lines)
+}
+
+func runDriverOnce(driver, component string, lines []string) ([]string, error) {
 	cmd := exec.Command(driver, component)
 	cmd.Stdin = strings.NewReader(strings.Join(lines, "\n") + "\n")
 	var out, errb bytes.Buffer
